@@ -387,7 +387,7 @@ func (n *jnode) slots(acc *[]jslot) {
 
 // jConfusions are the replacement values used for type confusion; "$" entries wrap / derive from the original
 var jConfusions = []string{"null", "true", "false", "0", "-1", "1.5", "1e400", "-1e400", "9007199254740993", "18446744073709551616",
-	"-9223372036854775809", `""`, `"x"`, `"did:nuts:x"`, `"://"`, `"0"`, "[]", "{}", "[$]", `{"x":$}`, "[$,$]", `[null]`, `[[]]`, `{"":null}`, `"$s"`, `"\u0000"`, `"` + "�" + `"`}
+	"-9223372036854775809", `""`, `"x"`, `"did:nuts:x"`, `"://"`, `"0"`, "[]", "{}", "[$]", `{"x":$}`, "[$,$]", `[null]`, `[[]]`, `{"":null}`, `"$s"`, `"$long"`, `"\u0000"`, `"` + "�" + `"`}
 
 func jraw(s string) *jnode {
 	n, err := jparse([]byte(s))
@@ -408,6 +408,8 @@ func jconfuse(orig *jnode, c string) *jnode {
 		return &jnode{kind: 'o', keys: []string{"x"}, kids: []*jnode{orig.clone()}}
 	case `"$s"`:
 		return &jnode{kind: 's', str: string(orig.bytes())}
+	case `"$long"`: // longer than any fixed-size buffer a key coordinate, hash or id is copied into
+		return &jnode{kind: 's', str: strings.Repeat("A", 300)}
 	}
 	return jraw(c)
 }
